@@ -30,7 +30,7 @@ SPEC = {
              "any order; fault cases (duplicate, skipped level, undeclared, builtin with a dotted tail); non-trivial = tree "
              "with >= 2 equal local names under different parents and >= 3 references that assembled and agreed, or a "
              "confirmed rejection; distinct = distinct source"),
-    "monitors": ["scoping-model", "constant-move-equality"],
+    "monitors": ["scoping-model", "constant-move-equality", "constant-chain-order"],
     "min_nontrivial": {"quick": 1000, "thorough": 20000},
     "assumptions": ["references are observed through #d16 of the referenced value (low 16 bits) and through the symbol table"],
 }
@@ -203,12 +203,65 @@ def repeated_locals(prog):
     return sum(1 for v in seen.values() if len(v) >= 2)
 
 
+def chain_case(ctx, rng, worker):
+    """Constants defined through a chain of other constants, declared in forward, reverse or shuffled order, feeding
+    data, an instruction, a #bankdef attribute and an #if condition: order must not matter."""
+    n = rng.choice([2, 3, 4, 6, 9, 10, 11, 12, 16, 20, 25])
+    base = rng.randint(1, 9)
+    decl = ["ch0 = %d" % base] + ["ch%d = ch%d + %d" % (i, i - 1, i % 3 + 1) for i in range(1, n)]
+    val = [base]
+    for i in range(1, n):
+        val.append(val[-1] + i % 3 + 1)
+    order = rng.choice(["forward", "reverse", "shuffled"])
+    lines = list(decl)
+    if order == "reverse":
+        lines.reverse()
+    elif order == "shuffled":
+        rng.shuffle(lines)
+    use = rng.choice(["data", "bankdef", "if", "instr"])
+    top = val[n - 1]
+    if use == "data":
+        head, tail = ["#d16 ch%d`16" % (n - 1)], []
+        want = "%04x" % (top & 0xffff)
+    elif use == "instr":
+        head, tail = ["#ruledef\n{\n    ld {x} => 0x55 @ x`16\n}", "ld ch%d" % (n - 1)], []
+        want = "55%04x" % (top & 0xffff)
+    elif use == "bankdef":
+        head = ["#bankdef b\n{\n    #addr ch%d\n    #size 8\n    #outp 0\n}" % (n - 1), "here:", "#d16 here`16"]
+        tail = []
+        want = "%04x" % (top & 0xffff)
+    else:
+        head = ["#if ch%d == %d\n{\n    #d8 0xaa\n}\n#else\n{\n    #d8 0xbb\n}" % (n - 1, top)]
+        tail = []
+        want = "aa"
+    place = rng.choice(["after", "before"])
+    body = (lines + head) if place == "before" else (head + lines)
+    src = "\n".join(body + tail) + "\n"
+    job = lib.asm_job({"main.asm": src}, want=["msgs"])
+    rec = worker.run(job)
+    ctx.evaluated()
+    ctx.monitor("constant-chain-order")
+    if lib.abnormal(rec):
+        ctx.excluded += 1
+        return
+    if not lib.ok(rec) or rec["out"]["hex"] != want:
+        ctx.violation("constant-chain", {"kind": "declaration-order-matters", "order": order, "use": use, "used_before_declared": place == "after"},
+                      job, {"hex": want}, {"ok": lib.ok(rec), "hex": (rec.get("out") or {}).get("hex"), "msgs": lib.first_messages(rec), "links": n})
+    else:
+        ctx.count("chain-ok:%s:%s" % (order, use))
+        if n >= 3 and order != "forward":
+            ctx.nontrivial_case(src.encode())
+
+
 def shard(ctx):
     worker = ctx.worker("rel")
     i = ctx.shard
     while not ctx.out_of_time():
         rng = ctx.rng(i)
         i += ctx.nshards
+        if i % 6 == 0:
+            chain_case(ctx, rng, worker)
+            continue
         prog = gen_tree(rng)
         fault = inject_fault(rng, prog) if rng.random() < 0.25 else None
         src = G.render(prog)
